@@ -68,7 +68,8 @@ def check_pair(ctx, tg, ref, href, var, wd, points, nsetup, dis, key):
     h = dc.h5read(tg, out)
     ctx.count("variant:" + var["tag"].split("_")[0])
     case = dict(reference=dc.cmdline(ref, "ref.h5"), variant=dc.cmdline(var, "var.h5"))
-    d = dc.compare_with_model(var, r, h, dc.run_model([("m", var, None, False, nsetup)])["m"], points, nsetup) if USE_MODEL else []
+    mvar = dc.with_oracle(var, r) if USE_MODEL else var
+    d = dc.compare_with_model(mvar, r, h, dc.run_model([("m", mvar, None, False, nsetup)])["m"], points, nsetup) if USE_MODEL else []
     for x in d:
         dis.append(dict(case=case, detail=x, sig={"stage": "correspondence", "what": x.split(" ")[0]}))
     if h is None or r["rc"] != 0:
@@ -131,7 +132,8 @@ def run(ctx):
             ctx.violation("impl-oracle", "reference run failed", case=dict(cmd=r["cmd"]), observed=r["log"][-400:],
                           sig={"oracle": "run-failed"})
             continue
-        for x in (dc.compare_with_model(base, r, href, dc.run_model([("m", base, None, False, nsetup)])["m"], points, nsetup) if USE_MODEL else []):
+        mbase = dc.with_oracle(base, r) if USE_MODEL else base
+        for x in (dc.compare_with_model(mbase, r, href, dc.run_model([("m", mbase, None, False, nsetup)])["m"], points, nsetup) if USE_MODEL else []):
             dis.append(dict(case=dict(cmd=r["cmd"]), detail=x, sig={"stage": "correspondence", "what": x.split(" ")[0]}))
         ntr += 1
         # tracking needs a reference that tracks too for the particle records
